@@ -17,6 +17,9 @@ CLAUSE = ("(RF-WHO) the export modules (text, html, vtx, templ, gfx: ppm/png/xpm
 CLAUSE = CLAUSE + (" vbi_export_mem: when the write layer moved to a heap buffer (target ALLOC) the data is copied back into the "
                    "caller's buffer before the heap buffer is freed; in vbi_draw_vt/cc_page_region every additive term of a canvas "
                    "pointer advance depends on the pixel size (canvas_type) or on the row stride.")
+CLAUSE = CLAUSE + (" In ppm_export's caller-buffer branch the advance capacity check (sized for the pixel rows only) is not "
+                   "followed by a formatted write before the unchecked row stores (the header is written first); the iconv "
+                   "character set name of each text export format is the one its menu label names.")
 NOT_DECIDED = ("pixel rectangle arithmetic under arbitrary rowstride, character-for-character fidelity of the text output, "
                "byte identity of the targets as values.")
 
@@ -79,6 +82,8 @@ def run(ctx, run):
     _pixfmt(ctx, run)
     _mem_copy_back(ctx, run, P.need("vbi_export_mem", EXPORT))
     _pixel_size_terms(ctx, run)
+    _mem_room_exact(ctx, run)
+    _format_names(ctx, run)
 
 
 def _grow_before_store(ctx, run):
@@ -408,3 +413,89 @@ def _pixel_size_terms(ctx, run):
                               "requested rectangle from the second text row on" % ex.pretty(f, t)[:70], ex.loc(f, t),
                               witness={"function": name, "term": ex.pretty(f, t)})
     run.floor("canvas advance terms in the region renderers", n, 4)
+
+
+def _mem_room_exact(ctx, run):
+    """vbi_export_mem: ppm_export reserves exactly the bytes of the pixel rows and then stores the rows
+    without further checks.  Anything that advances the buffer offset between that reservation and
+    the rows (the header printf) eats into the reserved room."""
+    P = ctx.prog
+    f = P.need("ppm_export", "src/exp-gfx.c")
+    run.touch(f)
+    MEM = P.enum_consts.get("VBI_EXPORT_TARGET_MEM")
+    n = 0
+    adv = ("vbi_export_printf", "vbi_export_vprintf", "vbi_export_write", "vbi_export_puts", "vbi_export_putc")
+    for bid, i in flow.all_events(f):
+        e = f.exprs[i]
+        if not (e["k"] == "call" and e.get("callee") == "_vbi_export_grow_buffer_space"):
+            continue
+        if not any(a.rel == "==" and a.R is not None and (a.R.const == MEM or a.L.const == MEM) and
+                   (a.L.has("vbi_export.target") or a.R.has("vbi_export.target")) for a in atoms.atoms_at(f, i)):
+            continue
+        n += 1
+        bad = None
+        seen, stack = set(), [(bid, flow.elem_pos(f)[i][1] + 1)]
+        while stack and bad is None:
+            b, k0 = stack.pop()
+            if (b, k0 > 0) in seen:
+                continue
+            seen.add((b, k0 > 0))
+            stop = False
+            for j in f.blocks[b].elems[k0:]:
+                ej = f.exprs[j]
+                if ej["k"] == "call":
+                    if ej.get("callee") == "_vbi_export_grow_buffer_space":
+                        stop = True
+                        break
+                    if ej.get("callee") in adv:
+                        bad = j
+                        break
+            if not stop and bad is None:
+                for s2, _ in f.edges(b):
+                    stack.append((s2, 0))
+        key = "RF-DOM:ppm_export:reserved-room-not-consumed"
+        if bad is None:
+            run.holds("RF-DOM", key, "nothing advances the buffer offset between the reservation for the pixel rows and the rows", ex.loc(f, i))
+        else:
+            run.violation("RF-DOM", key, "`%s` advances the buffer offset after room was reserved for exactly the pixel rows: the "
+                          "unchecked row stores end that many bytes past the reservation - past the caller's buffer when it is "
+                          "a few bytes short of the needed size" % ex.pretty(f, bad)[:50], ex.loc(f, bad), witness={"function": f.name})
+    run.floor("caller-buffer reservations in ppm_export", n, 1)
+
+
+def _strings_of(ctx, name):
+    for g in ctx.prog.globals.get(name, []):
+        if "init" not in g:
+            continue
+        exprs = g["exprs"]
+        out = []
+
+        def walk(i):
+            e = exprs[i]
+            if e["k"] == "str":
+                out.append(e.get("s", ""))
+                return
+            for c in e.get("c", []) or []:
+                walk(c)
+        walk(g["init"])
+        return out
+    return None
+
+
+def _format_names(ctx, run):
+    labels = _strings_of(ctx, "formats")
+    names = _strings_of(ctx, "iconv_formats")
+    if not labels or not names:
+        raise AnalysisBroken("exp-txt.c: formats[] / iconv_formats[] not readable (%s, %s)" % (labels, names))
+    key = "RF-TAB:exp-txt:iconv-name-matches-label"
+    if len(labels) != len(names):
+        run.violation("RF-TAB", key, "formats[] has %d entries, iconv_formats[] %d: the option's range check uses the former, the "
+                      "export indexes the latter" % (len(labels), len(names)), "src/exp-txt.c")
+        return
+    bad = [(k, a, b) for k, (a, b) in enumerate(zip(labels, names)) if b.upper() not in a.upper()]
+    if bad:
+        k, a, b = bad[0]
+        run.violation("RF-TAB", key, "text export format %d is offered as \"%s\" but converts with iconv name \"%s\": characters "
+                      "outside the common subset come out wrong" % (k, a[:40], b), "src/exp-txt.c", witness={"entries": bad[:4]})
+    else:
+        run.holds("RF-TAB", key, "all %d iconv names occur in the label of their menu entry" % len(names), "src/exp-txt.c")
